@@ -402,41 +402,9 @@ func propC02(c *Check) {
 		"x/relayer/keeper.Keeper.EndBlocker":          true,
 	}
 	relT := p.LookupType("x/relayer/types", "Relayer")
-	nPA := 0
-	for _, f := range p.ProdFuncs {
-		if p.isGenerated(f) {
-			continue
-		}
-		for _, b := range f.Blocks {
-			for _, in := range b.Instrs {
-				st, ok := in.(*ssa.Store)
-				if !ok {
-					continue
-				}
-				fa, ok := st.Addr.(*ssa.FieldAddr)
-				if !ok {
-					continue
-				}
-				if nt := namedOf(fa.X.Type()); nt == nil || nt.Obj() != relT.Obj() || fieldName(fa.X.Type(), fa.Field) != "ProposerAccepted" {
-					continue
-				}
-				nPA++
-				if allowedPA[FuncKey(f)] {
-					c.Held("R3", "ProposerAccepted-store "+FuncKey(f), p.InstrPos(in), "")
-				} else {
-					c.Violated("R3", "ProposerAccepted-store "+FuncKey(f), p.InstrPos(in), "proposer-accepted flag written outside the four known functions")
-				}
-			}
-		}
-	}
-	c.Floor("R3", "ProposerAccepted stores", nPA, 6)
+	c.checkFieldWriters("R3", relT, "ProposerAccepted", "ProposerAccepted", allowedPA, 4)
 	vp := p.MustFn("x/relayer/keeper.Keeper.VerifyProposal")
-	var vpSets []ssa.Instruction
-	for _, s := range p.StoreSites(vp) {
-		if s.IsWrite() {
-			vpSets = append(vpSets, s.Call)
-		}
-	}
+	vpSets := p.writeSites(vp) // direct store writes and calls to helpers that write
 	if len(vpSets) == 0 {
 		c.Violated("R3", "flag-write-found @ "+FuncKey(vp), p.Pos(vp.Pos()), "no Relayer.Set found reason=not-established")
 	} else {
@@ -447,12 +415,7 @@ func propC02(c *Check) {
 		c.RequireFact(vp, "R3", "write-after-signature", `^crypto\.AggregateVerify\(`, tgt, "state write")
 	}
 	vnp := p.MustFn("x/relayer/keeper.Keeper.VerifyNonProposal")
-	var vnpSets []ssa.Instruction
-	for _, s := range p.StoreSites(vnp) {
-		if s.IsWrite() {
-			vnpSets = append(vnpSets, s.Call)
-		}
-	}
+	vnpSets := p.writeSites(vnp)
 	c.RequireFact(vnp, "R3", "nonvote-proposer", lit("(INonVoteMsg.GetProposer($2) == Relayer.Get()#0.Proposer)"), nil, "")
 	if len(vnpSets) > 0 {
 		c.RequireFact(vnp, "R3", "write-after-proposer", lit("(INonVoteMsg.GetProposer($2) == Relayer.Get()#0.Proposer)"), instrSet(vnpSets), "state write")
